@@ -18,12 +18,16 @@ SIDS = ["Sa", "Sb", "Sc", "Sd", "Se"]
 
 def random_scenario(rng: random.Random, nsims=(2, 4), nconns=(1, 5), until=(2, 4), groups=True, siblings=True,
                     weak=0.4, p_async=0.0, shifts=(0, 0, 0, 1, 1, 2), selfloops=0.1, maxloop=3,
-                    parallel_delays=True, types=S.TYPES):
+                    parallel_delays=True, types=S.TYPES, p_two_entities=0.0):
     n = rng.randint(*nsims)
     pool = [[]]
     if groups:
         pool = [[], [], [1], [1, 2]] + ([[3], [1, 4]] if siblings else [])
     sims = [{"sid": SIDS[i], "type": rng.choice(types), "gpath": list(rng.choice(pool)), "initev": False} for i in range(n)]
+    if p_two_entities:
+        for s in sims:
+            if rng.random() < p_two_entities:
+                s["nent"] = 2
     conns = []
     for _ in range(rng.randint(*nconns)):
         if rng.random() < selfloops:
@@ -45,16 +49,20 @@ def random_scenario(rng: random.Random, nsims=(2, 4), nconns=(1, 5), until=(2, 4
             if shift or wk or rng.random() < 0.7:
                 continue
         init = (shift > 0 or wk) and not S.is_trig(da)
+        se = f"E{rng.randrange(sa_.get('nent', 1))}"
+        de = f"E{rng.randrange(sb_.get('nent', 1))}"
         # one source attribute of a source entity per destination slot
-        if any(c["src"] == sa_["sid"] and c["dst"] == sb_["sid"] and c["da"] == da and c["sa"] != sa for c in conns):
+        if any(c["src"] == sa_["sid"] and c["dst"] == sb_["sid"] and c["da"] == da and c["sa"] != sa and c.get("se", "E0") == se
+               and c.get("de", "E0") == de for c in conns):
             continue
         if not parallel_delays and any(
-            c["src"] == sa_["sid"] and c["dst"] == sb_["sid"] and c["da"] == da and c["sa"] == sa for c in conns
+            c["src"] == sa_["sid"] and c["dst"] == sb_["sid"] and c["da"] == da and c["sa"] == sa and c.get("se", "E0") == se
+            and c.get("de", "E0") == de for c in conns
         ):
             continue
         # initial data is a function of (source simulator, source attribute): all-or-nothing per source attribute is
         # not required, but the token is the same
-        c = {"src": sa_["sid"], "dst": sb_["sid"], "sa": sa, "da": da, "shift": shift, "weak": wk, "init": init,
+        c = {"src": sa_["sid"], "dst": sb_["sid"], "sa": sa, "da": da, "se": se, "de": de, "shift": shift, "weak": wk, "init": init,
              "async": a != b and rng.random() < p_async}
         conns.append(c)
     for s in sims:
